@@ -237,6 +237,11 @@ impl ChannelSigner for TestChannelSigner {
 			idx,
 			Some(holder_tx.trust().txid()),
 		);
+		#[cfg(feature = "_verif_hooks")]
+		verif_hooks_signer_log::annotate_last((
+			holder_tx.counterparty_htlc_sigs.len(),
+			holder_tx.nondust_htlcs().len(),
+		));
 		if !self.disable_all_state_policy_checks {
 			assert!(
 				idx == state.last_holder_commitment || idx == state.last_holder_commitment - 1,
@@ -663,6 +668,9 @@ pub mod verif_hooks_signer_log {
 		pub number: u64,
 		/// The commitment transaction the call was about, where there is one.
 		pub commitment_txid: Option<Txid>,
+		/// For `validate_holder`: (number of counterparty HTLC signatures, number of non-dust HTLCs)
+		/// of the holder commitment handed to the signer.
+		pub htlc_sig_counts: Option<(usize, usize)>,
 	}
 
 	thread_local! {
@@ -680,7 +688,16 @@ pub mod verif_hooks_signer_log {
 				kind,
 				number,
 				commitment_txid,
+				htlc_sig_counts: None,
 			})
+		});
+	}
+
+	pub(super) fn annotate_last(htlc_sig_counts: (usize, usize)) {
+		LOG.with(|l| {
+			if let Some(last) = l.borrow_mut().last_mut() {
+				last.htlc_sig_counts = Some(htlc_sig_counts);
+			}
 		});
 	}
 
@@ -695,6 +712,7 @@ mod verif_hooks_signer_log {
 		_: usize, _: [u8; 32], _: &'static str, _: u64, _: Option<bitcoin::Txid>,
 	) {
 	}
+	pub(super) fn annotate_last(_: (usize, usize)) {}
 }
 
 /// Verification hooks (feature `_verif_hooks` only); see `ln::verif_hooks`. A per-thread,
